@@ -221,7 +221,9 @@ func (h Engine) applyAuthMiddleware(echoServer core.EchoRouter, path string, con
 	address := h.server.getAddressForPath(path)
 
 	skipper := func(c echo.Context) bool {
-		return !matchesPath(c.Request().RequestURI, path)
+		// Match on the parsed URL path (which the router dispatches on), not on the raw request target:
+		// an absolute-form request target (e.g. "GET http://host/internal/...") does not start with the path.
+		return !matchesPath(c.Request().URL.Path, path)
 	}
 
 	// Auth
